@@ -165,4 +165,454 @@ theorem maj_offered (V : List VoteSet.Validator) (pos : ∀ val ∈ V, 0 ≤ val
   rw [← total_eq_S]
   omega
 
+
+/-! ### the system: honest nodes `k < K` under an adversarial scheduler -/
+
+structure Act where
+  k : Nat
+  i : In
+
+/-- the nodes, and for each the (ghost) history of votes offered to it so far -/
+structure G where
+  node : Nat → Node
+  hist : Nat → VoteSet.Hist
+
+def step (g : G) (a : Act) : G :=
+  { node := fun k => if k = a.k then stepIn (g.node k) a.i else g.node k,
+    hist := fun k => if k = a.k then g.hist k ++ offered (g.node k) a.i else g.hist k }
+
+/-- the state after the first `s` actions of the schedule -/
+def stateAt (g0 : G) (as : List Act) (s : Nat) : G := (as.take s).foldl step g0
+
+theorem stateAt_succ (g0 : G) (as : List Act) (s : Nat) (hs : s < as.length) :
+    stateAt g0 as (s + 1) = step (stateAt g0 as s) as[s] := by
+  unfold stateAt
+  rw [List.take_succ, List.foldl_append]
+  simp [List.getElem?_eq_getElem hs]
+
+theorem stateAt_ge (g0 : G) (as : List Act) (s : Nat) (hs : as.length ≤ s) :
+    stateAt g0 as (s + 1) = stateAt g0 as s := by
+  unfold stateAt
+  rw [List.take_of_length_le (by omega), List.take_of_length_le hs]
+
+def SameContent (w v : VoteSet.Vote) : Prop :=
+  w.height = v.height ∧ w.round = v.round ∧ w.type = v.type ∧ w.bid = v.bid
+
+/-- UNFORGEABILITY: a vote that verifies under the key of the honest validator run by node `k'` has
+    been signed by that node -/
+def Auth (K : Nat) (g : G) (i : In) : Prop :=
+  ∀ v peer, i = .msg (.vote v true) peer → ∀ k' (j : Nat), k' < K → (g.node k').me = some j → v.idx = (j : Int) →
+    ∃ w ∈ (g.node k').signed, SameContent w v
+
+structure Valid (K : Nat) (g : G) (a : Act) : Prop where
+  k : a.k < K
+  wt : WellTimed (g.node a.k) a.i
+  auth : Auth K g a.i
+  small : ∀ x ∈ offered (g.node a.k) a.i, x.1.bid.Small
+
+def ValidRun (K : Nat) (g0 : G) (as : List Act) : Prop :=
+  ∀ s (hs : s < as.length), Valid K (stateAt g0 as s) as[s]
+
+theorem signed_prefix_stepIn (n : Node) (i : In) (hw : WellTimed n i) : n.signed <+: (stepIn n i).signed := by
+  have key : ∀ m : Node, Ext n m → n.signed <+: m.signed := fun m e => by
+    obtain ⟨ex, h, _⟩ := e.queue; exact ⟨ex, h.symm⟩
+  cases i with
+  | msg m peer => exact key _ (ext_handleMsg _ _ _)
+  | own =>
+    show n.signed <+: (match n.queue with | [] => n | m :: rest => handleMsg { n with queue := rest } m "").signed
+    split
+    · exact List.prefix_refl _
+    · rename_i m rest _
+      obtain ⟨ex, h, _⟩ := (ext_handleMsg { n with queue := rest } m "").queue
+      exact ⟨ex, h.symm⟩
+  | timeout h r s => exact key _ (ext_handleTimeout _ _ _ _ hw)
+  | maj23 h r t peer bid => exact key _ (ext_setPeerMaj23 _ _ _ _ _ _)
+
+section
+variable (K : Nat) (V : List VoteSet.Validator) (me0 : Nat → Option Nat) (g0 : G) (as : List Act)
+
+/-- what is assumed of the system: every node satisfies the run invariants at the start (a freshly
+    started node does: `start_full`), no two nodes run the same validator, inputs are authentic -/
+structure Setting : Prop where
+  init : ∀ k, k < K → Full V (me0 k) (g0.node k) (g0.hist k) ∧ g0.hist k = []
+  dist : ∀ k k' (j : Nat), k < K → k' < K → me0 k = some j → me0 k' = some j → k = k'
+  run : ValidRun K g0 as
+
+variable {K V me0 g0 as}
+
+theorem gi (S : Setting K V me0 g0 as) : ∀ s k, k < K →
+    Full V (me0 k) ((stateAt g0 as s).node k) ((stateAt g0 as s).hist k) ∧
+    ∀ x ∈ (stateAt g0 as s).hist k, x.1.bid.Small := by
+  intro s
+  induction s with
+  | zero =>
+    intro k hk
+    obtain ⟨f, he⟩ := S.init k hk
+    refine ⟨f, ?_⟩
+    show ∀ x ∈ g0.hist k, _
+    rw [he]; simp
+  | succ s ih =>
+    intro k hk
+    by_cases hs : s < as.length
+    · rw [stateAt_succ g0 as s hs]
+      have v := S.run s hs
+      obtain ⟨f, sm⟩ := ih k hk
+      unfold step
+      dsimp only
+      by_cases hka : k = as[s].k
+      · rw [if_pos hka, if_pos hka]
+        subst hka
+        refine ⟨full_stepIn _ _ f v.wt, ?_⟩
+        intro x hx
+        rcases List.mem_append.mp hx with hx | hx
+        · exact sm x hx
+        · exact v.small x hx
+      · rw [if_neg hka, if_neg hka]; exact ⟨f, sm⟩
+    · rw [stateAt_ge g0 as s (by omega)]; exact ih k hk
+
+theorem signed_prefix (S : Setting K V me0 g0 as) (k : Nat) (hk : k < K) : ∀ d s,
+    ((stateAt g0 as s).node k).signed <+: ((stateAt g0 as (s + d)).node k).signed := by
+  intro d
+  induction d with
+  | zero => intro s; exact List.prefix_refl _
+  | succ d ih =>
+    intro s
+    refine (ih s).trans ?_
+    show _ <+: ((stateAt g0 as (s + d + 1)).node k).signed
+    by_cases hs : s + d < as.length
+    · rw [stateAt_succ g0 as _ hs]
+      unfold step
+      dsimp only
+      by_cases hka : k = as[s + d].k
+      · rw [if_pos hka]
+        have v := S.run _ hs
+        subst hka
+        exact signed_prefix_stepIn _ _ v.wt
+      · rw [if_neg hka]; exact List.prefix_refl _
+    · rw [stateAt_ge g0 as _ (by omega)]; exact List.prefix_refl _
+
+theorem signed_mono (S : Setting K V me0 g0 as) (k : Nat) (hk : k < K) (s s' : Nat) (h : s ≤ s') (w : VoteSet.Vote)
+    (hw : w ∈ ((stateAt g0 as s).node k).signed) : w ∈ ((stateAt g0 as s').node k).signed := by
+  obtain ⟨d, rfl⟩ := Nat.exists_eq_add_of_le h
+  exact (signed_prefix S k hk d s).subset hw
+
+/-- TIMED AUTHENTICITY: a validly signed vote of an honest validator in any node's history of
+    offered votes at time `s` was signed by that validator's node strictly before `s` -/
+theorem offered_was_signed (S : Setting K V me0 g0 as) : ∀ s k, k < K → ∀ v, (v, true) ∈ (stateAt g0 as s).hist k →
+    ∀ k' (j : Nat), k' < K → me0 k' = some j → v.idx = (j : Int) →
+      ∃ s', s' < s ∧ ∃ w ∈ ((stateAt g0 as s').node k').signed, SameContent w v := by
+  intro s
+  induction s with
+  | zero =>
+    intro k hk v hv
+    have : (stateAt g0 as 0).hist k = g0.hist k := rfl
+    rw [this, (S.init k hk).2] at hv
+    simp at hv
+  | succ s ih =>
+    intro k hk v hv k' j hk' hme hidx
+    by_cases hs : s < as.length
+    · rw [stateAt_succ g0 as s hs] at hv
+      unfold step at hv
+      dsimp only at hv
+      by_cases hka : k = as[s].k
+      · rw [if_pos hka] at hv
+        rcases List.mem_append.mp hv with hv | hv
+        · obtain ⟨s', h1, h2⟩ := ih k hk v hv k' j hk' hme hidx
+          exact ⟨s', by omega, h2⟩
+        · have vld := S.run s hs
+          refine ⟨s, by omega, ?_⟩
+          have fk' := (gi S s k' hk').1
+          cases hi : as[s].i with
+          | msg m peer =>
+            rw [hi] at hv
+            cases m with
+            | vote v' ok =>
+              simp only [offered, offeredMsg, List.mem_singleton, Prod.mk.injEq] at hv
+              obtain ⟨rfl, rfl⟩ := hv
+              exact vld.auth v peer hi k' j hk' (by rw [fk'.hme]; exact hme) hidx
+            | proposal p sg bad => simp [offered, offeredMsg] at hv
+            | parts h r b => simp [offered, offeredMsg] at hv
+          | own =>
+            rw [hi] at hv
+            have fk := (gi S s k hk).1
+            have hv' : (v, true) ∈ (match ((stateAt g0 as s).node k).queue with
+                | m :: _ => offeredMsg m | [] => []) := hv
+            cases hq : ((stateAt g0 as s).node k).queue with
+            | nil => rw [hq] at hv'; simp at hv'
+            | cons m rest =>
+              rw [hq] at hv'
+              cases m with
+              | vote v' ok =>
+                simp only [offeredMsg, List.mem_singleton, Prod.mk.injEq] at hv'
+                obtain ⟨rfl, rfl⟩ := hv'
+                have hmem : Msg.vote v true ∈ ((stateAt g0 as s).node k).queue := by rw [hq]; simp
+                have hsig := (fk.qs v true hmem).1
+                obtain ⟨i, hi1, hi2⟩ := fk.sm v hsig
+                rw [fk.hme] at hi1
+                have hij : i = j := by omega
+                subst hij
+                have hkk : k = k' := S.dist k k' i hk hk' hi1 hme
+                subst hkk
+                exact ⟨v, hsig, rfl, rfl, rfl, rfl⟩
+              | proposal p sg bad => simp [offeredMsg] at hv'
+              | parts h r b => simp [offeredMsg] at hv'
+          | timeout h r st => rw [hi] at hv; simp [offered] at hv
+          | maj23 h r t peer bid => rw [hi] at hv; simp [offered] at hv
+      · rw [if_neg hka] at hv
+        obtain ⟨s', h1, h2⟩ := ih k hk v hv k' j hk' hme hidx
+        exact ⟨s', by omega, h2⟩
+    · rw [stateAt_ge g0 as s (by omega)] at hv
+      obtain ⟨s', h1, h2⟩ := ih k hk v hv k' j hk' hme hidx
+      exact ⟨s', by omega, h2⟩
+
+end
+
+/-! ### the vote history of one height, with global step numbers as time -/
+
+section
+variable (K : Nat) (V : List VoteSet.Validator) (me0 : Nat → Option Nat) (g0 : G) (as : List Act) (h : Int)
+
+/-- validator `j` is run by one of the nodes -/
+def Honest (j : Nat) : Prop := ∃ k, k < K ∧ me0 k = some j
+
+def optOf (bid : VoteSet.BlockID) : Option Bytes := if bid.hash.isEmpty then none else some bid.hash
+
+/-- by time `s` validator `j` has signed a vote of type `t` for `x` in round `r` of height `h`
+    (for a validator outside the honest nodes: anything, at any time) -/
+def voteAt (t : Nat) (j : Nat) (r : Int) (x : Option Bytes) (s : Nat) : Prop :=
+  ¬ Honest K me0 j ∨ ∃ k, k < K ∧ me0 k = some j ∧ ∃ w ∈ ((stateAt g0 as s).node k).signed,
+    w.height = h ∧ w.round = r ∧ w.type = t ∧ optOf w.bid = x
+
+def Hs : ZHistory Bytes := ⟨voteAt K me0 g0 as h 1, voteAt K me0 g0 as h 2⟩
+
+variable {K V me0 g0 as h}
+
+theorem optOf_some {bid : VoteSet.BlockID} {b : Bytes} (e : optOf bid = some b) : bid.hash = b ∧ bid.hash.isEmpty = false := by
+  unfold optOf at e
+  split at e
+  · cases e
+  · rename_i hne
+    exact ⟨by injection e, by simpa using hne⟩
+
+theorem optOf_eq_of_hash {a b : VoteSet.BlockID} (e : a.hash = b.hash) : optOf a = optOf b := by
+  unfold optOf; rw [e]
+
+/-- the core: a majority reported by a vote set of node `k` at time `s` consists, to more than two
+    thirds of the power, of validators that had signed exactly that vote strictly before `s` -/
+theorem maj_lift (st : Setting K V me0 g0 as) (s k : Nat) (hk : k < K) (t : Nat) (r : Int) (vs : VoteSet.VoteSet)
+    (inv : VoteSet.Inv VoteSet.repaired ((stateAt g0 as s).hist k) vs)
+    (sp : VoteSet.SameParams (VoteSet.new h r t V) vs)
+    (moff : ∀ b, vs.maj23 = some b → ∃ v, (v, true) ∈ (stateAt g0 as s).hist k ∧ v.bid = b)
+    (bid : VoteSet.BlockID) (hm : vs.maj23 = some bid) :
+    3 * pow V.length (wOf V) (fun j => ∃ s', s' < s ∧ voteAt K me0 g0 as h t j r (optOf bid) s') > 2 * Fairness.S V.length (wOf V) := by
+  obtain ⟨f, small⟩ := gi st s k hk
+  have pos := f.vsi.pos
+  obtain ⟨v0, hv0, e0⟩ := moff bid hm
+  have hb : bid.Small := e0 ▸ small _ hv0
+  have big := maj_offered V pos _ small vs h r t inv sp bid hb hm
+  have mono := pow_mono V.length (wOf V) (fun j _ => wOf_nonneg V pos j)
+    (Offered ((stateAt g0 as s).hist k) h r t bid)
+    (fun j => ∃ s', s' < s ∧ voteAt K me0 g0 as h t j r (optOf bid) s') (by
+      intro j ⟨v, hv, hidx, hh, hr, ht, hbb⟩
+      by_cases hon : Honest K me0 j
+      · obtain ⟨k', hk', hme⟩ := hon
+        obtain ⟨s', hlt, w, hw, sc⟩ := offered_was_signed st s k hk v hv k' j hk' hme hidx
+        exact ⟨s', hlt, Or.inr ⟨k', hk', hme, w, hw, sc.1.trans hh, sc.2.1.trans hr, sc.2.2.1.trans ht,
+          by rw [sc.2.2.2, hbb]⟩⟩
+      · have hs0 : s ≠ 0 := by
+          intro e
+          subst e
+          have : (stateAt g0 as 0).hist k = g0.hist k := rfl
+          rw [this, (st.init k hk).2] at hv
+          simp at hv
+        exact ⟨0, by omega, Or.inl hon⟩)
+  omega
+
+theorem find_prevotes {rs : List RoundVotes} {r : Int} {bid : VoteSet.BlockID}
+    (hm : maj23 (prevotesOf rs r) = some bid) : ∃ rv ∈ rs, rv.round = r ∧ rv.prevotes.maj23 = some bid := by
+  unfold maj23 prevotesOf at hm
+  cases hf : rs.find? (·.round = r) with
+  | none => rw [hf] at hm; simp at hm
+  | some rv =>
+    rw [hf] at hm
+    have := List.find?_some hf
+    exact ⟨rv, List.mem_of_find?_eq_some hf, by simpa using this, by simpa using hm⟩
+
+theorem find_precommits {rs : List RoundVotes} {r : Int} {bid : VoteSet.BlockID}
+    (hm : maj23 (precommitsOf rs r) = some bid) : ∃ rv ∈ rs, rv.round = r ∧ rv.precommits.maj23 = some bid := by
+  unfold maj23 precommitsOf at hm
+  cases hf : rs.find? (·.round = r) with
+  | none => rw [hf] at hm; simp at hm
+  | some rv =>
+    rw [hf] at hm
+    have := List.find?_some hf
+    exact ⟨rv, List.mem_of_find?_eq_some hf, by simpa using this, by simpa using hm⟩
+
+/-- a prevote majority in a set of vote sets of height `h` that satisfies `SetsOK` at time `s` -/
+theorem polka_lift (st : Setting K V me0 g0 as) (s k : Nat) (hk : k < K) (rs : List RoundVotes)
+    (ok : SetsOK V ((stateAt g0 as s).hist k) h rs) (r : Int) (bid : VoteSet.BlockID)
+    (hm : maj23 (prevotesOf rs r) = some bid) :
+    PolkaBefore V.length (wOf V) (Hs K me0 g0 as h) r (optOf bid) s := by
+  obtain ⟨rv, hmem, hr, hmaj⟩ := find_prevotes hm
+  obtain ⟨i1, _, p1, _, o1, _⟩ := ok rv hmem
+  rw [hr] at p1
+  exact maj_lift st s k hk 1 r rv.prevotes i1 p1 o1 bid hmaj
+
+theorem eq_of_uniq (l : List VoteSet.Vote)
+    (hu : ∀ (i j : Nat) (_ : i < j) (hj : j < l.length),
+      ¬ ((l[i]'(by omega)).height = (l[j]).height ∧ (l[i]'(by omega)).round = (l[j]).round ∧ (l[i]'(by omega)).type = (l[j]).type))
+    (a b : VoteSet.Vote) (ha : a ∈ l) (hb : b ∈ l)
+    (e : a.height = b.height ∧ a.round = b.round ∧ a.type = b.type) : a = b := by
+  obtain ⟨i, hi, rfl⟩ := List.getElem_of_mem ha
+  obtain ⟨j, hj, rfl⟩ := List.getElem_of_mem hb
+  rcases Nat.lt_trichotomy i j with h | h | h
+  · exact absurd e (hu i j h hj)
+  · subst h; rfl
+  · exact absurd ⟨e.1.symm, e.2.1.symm, e.2.2.symm⟩ (hu j i h hi)
+
+/-- A1-A3 for the history of height `h` of ANY valid run of the system -/
+theorem honest_rules (st : Setting K V me0 g0 as) :
+    HonestRules V.length (wOf V) (fun j => ¬ Honest K me0 j) (Hs K me0 g0 as h) := by
+  refine ⟨?_, ?_, ?_⟩
+  · -- A1: one precommit per round
+    intro j r x y s s' hf h1 h2
+    rcases h1 with h1 | ⟨k1, hk1, hm1, w1, hw1, a1, b1, c1, d1⟩
+    · exact absurd h1 hf
+    rcases h2 with h2 | ⟨k2, hk2, hm2, w2, hw2, a2, b2, c2, d2⟩
+    · exact absurd h2 hf
+    have hkk : k1 = k2 := st.dist k1 k2 j hk1 hk2 hm1 hm2
+    subst hkk
+    have m1 := signed_mono st k1 hk1 s (max s s') (Nat.le_max_left _ _) w1 hw1
+    have m2 := signed_mono st k1 hk1 s' (max s s') (Nat.le_max_right _ _) w2 hw2
+    have f := (gi st (max s s') k1 hk1).1
+    have e := eq_of_uniq _ f.a3.uniq w1 w2 m1 m2 ⟨a1.trans a2.symm, b1.trans b2.symm, c1.trans c2.symm⟩
+    rw [← d1, ← d2, e]
+  · -- A2: a precommit for a block comes with a polka
+    intro j r b t hf hp
+    rcases hp with hp | ⟨k, hk, hm, w, hw, a, b1, c, d⟩
+    · exact absurd hp hf
+    obtain ⟨hhash, hne⟩ := optOf_some d
+    have f := (gi st t k hk).1
+    have hle := (f.a3.hr w hw).1
+    refine ⟨t, ?_⟩
+    rw [← d, ← b1]
+    by_cases hcur : ((stateAt g0 as t).node k).height = h
+    · have hmaj := (f.qj w hw).2 c (by rw [a, hcur]) hne
+      have ok := f.vsi.cur
+      rw [hcur] at ok
+      exact polka_lift st t k hk _ ok w.round w.bid hmaj
+    · obtain ⟨e, he, h1⟩ := f.past.cover w hw (by omega)
+      have hmaj := (f.past.ok e he).2.just w hw h1.symm c hne
+      have ok := f.vsi.old e he
+      rw [h1, a] at ok
+      exact polka_lift st t k hk _ ok w.round w.bid hmaj
+  · -- A3: the lock rule
+    intro j r b t r' x t' hf hpc hlt hpv hx
+    rcases hpc with hpc | ⟨k1, hk1, hm1, w1, hw1, a1, b1, c1, d1⟩
+    · exact absurd hpc hf
+    rcases hpv with hpv | ⟨k2, hk2, hm2, w2, hw2, a2, b2, c2, d2⟩
+    · exact absurd hpv hf
+    have hkk : k1 = k2 := st.dist k1 k2 j hk1 hk2 hm1 hm2
+    subst hkk
+    obtain ⟨hhash, hne⟩ := optOf_some d1
+    -- both votes in the signing history at the later of the two times
+    have pre := signed_prefix st k1 hk1 (max t t' - t') t'
+    have eT : t' + (max t t' - t') = max t t' := by have := Nat.le_max_right t t'; omega
+    rw [eT] at pre
+    have m1 := signed_mono st k1 hk1 t (max t t') (Nat.le_max_left _ _) w1 hw1
+    have fT := (gi st (max t t') k1 hk1).1
+    obtain ⟨i1, hi1, e1⟩ := List.getElem_of_mem m1
+    obtain ⟨j2, hj2, e2⟩ := List.getElem_of_mem hw2
+    have hj2T : j2 < ((stateAt g0 as (max t t')).node k1).signed.length := Nat.lt_of_lt_of_le hj2 pre.length_le
+    have e2T : ((stateAt g0 as (max t t')).node k1).signed[j2] = w2 := by
+      rw [← pre.getElem hj2]; exact e2
+    -- the precommit comes first
+    have hord : i1 < j2 := by
+      rcases Nat.lt_trichotomy i1 j2 with hh | hh | hh
+      · exact hh
+      · exfalso
+        subst hh
+        rw [e1] at e2T
+        rw [e2T] at c1
+        omega
+      · exfalso
+        have := fT.a3.srt j2 i1 hh hi1
+        rw [e2T, e1] at this
+        have := this.2 (a2.trans a1.symm)
+        omega
+    have hi1' : i1 < ((stateAt g0 as t').node k1).signed.length := by omega
+    have e1' : ((stateAt g0 as t').node k1).signed[i1] = w1 := by
+      rw [pre.getElem hi1']; exact e1
+    -- the lock rule at the time the prevote is known to be signed
+    have f := (gi st t' k1 hk1).1
+    have hle := (f.a3.hr w2 hw2).1
+    have hhne : w2.bid.hash ≠ w1.bid.hash := by
+      intro e
+      apply hx
+      rw [← d2, ← d1]
+      exact optOf_eq_of_hash e
+    have fin : ∀ (rs : List RoundVotes), SetsOK V ((stateAt g0 as t').hist k1) h rs →
+        (∃ r'' bid'', w1.round < r'' ∧ r'' ≤ w2.round ∧ maj23 (prevotesOf rs r'') = some bid'' ∧ bid''.hash ≠ w1.bid.hash) →
+        ∃ r'' y, r < r'' ∧ r'' ≤ r' ∧ y ≠ some b ∧ PolkaBefore V.length (wOf V) (Hs K me0 g0 as h) r'' y t' := by
+      intro rs ok ⟨r'', bid'', h1, h2, h3, h4⟩
+      refine ⟨r'', optOf bid'', by omega, by omega, ?_, polka_lift st t' k1 hk1 rs ok r'' bid'' h3⟩
+      intro e
+      have := (optOf_some e).1
+      exact h4 (by rw [this, hhash])
+    by_cases hcur : ((stateAt g0 as t').node k1).height = h
+    · have ok := f.vsi.cur
+      rw [hcur] at ok
+      refine fin _ ok ?_
+      have := f.a3.g3 i1 j2 hord hj2 (by rw [e1']; exact ⟨c1, hne, by rw [a1, hcur]⟩) (by rw [e2]; exact c2)
+        (by rw [e2, a2, hcur]) (by rw [e1', e2]; omega) (by rw [e1', e2]; exact hhne)
+      rw [e1', e2] at this
+      exact this
+    · obtain ⟨e, he, h1⟩ := f.past.cover w2 hw2 (by omega)
+      have ok := f.vsi.old e he
+      rw [h1, a2] at ok
+      refine fin _ ok ?_
+      have := (f.past.ok e he).2.lock i1 j2 hord hj2 (by rw [e1']; exact c1) (by rw [e1']; exact hne)
+        (by rw [e1', a1, h1, a2]) (by rw [e2]; exact c2) (by rw [e2, h1]) (by rw [e1', e2]; omega)
+        (by rw [e1', e2]; exact hhne)
+      rw [e1', e2] at this
+      exact this
+
+/-- C01, LAYER 2: in every valid run of the system - any schedule, any messages, unforgeable
+    signatures, less than one third of the power outside the honest nodes - two nodes never commit
+    different blocks at one height -/
+theorem agreement_net (st : Setting K V me0 g0 as)
+    (hF : 3 * pow V.length (wOf V) (fun j => ¬ Honest K me0 j) < Fairness.S V.length (wOf V))
+    (s s' k k' : Nat) (hk : k < K) (hk' : k' < K) (b b' : Bytes) (hb : b ≠ []) (hb' : b' ≠ [])
+    (hc : Emit.commit h b ∈ ((stateAt g0 as s).node k).out)
+    (hc' : Emit.commit h b' ∈ ((stateAt g0 as s').node k').out) : b = b' := by
+  have quorum : ∀ (s k : Nat) (hk : k < K) (b : Bytes), b ≠ [] → Emit.commit h b ∈ ((stateAt g0 as s).node k).out →
+      ∃ cr, CommitQuorum V.length (wOf V) (Hs K me0 g0 as h) cr b := by
+    intro s k hk b hb hc
+    obtain ⟨f, _⟩ := gi st s k hk
+    obtain ⟨e, he, h1, cr, bid, hmaj, hbid⟩ := f.cm h b hc
+    obtain ⟨rv, hmem, hr, hm⟩ := find_precommits hmaj
+    have ok := f.vsi.old e he
+    rw [h1] at ok
+    obtain ⟨_, i2, _, p2, _, o2⟩ := ok rv hmem
+    rw [hr] at p2
+    have big := maj_lift st s k hk 2 cr rv.precommits i2 p2 o2 bid hm
+    have eo : optOf bid = some b := by
+      unfold optOf
+      rw [hbid]
+      have : b.isEmpty = false := by cases b <;> simp_all
+      simp [this]
+    rw [eo] at big
+    refine ⟨cr, ?_⟩
+    have mono := pow_mono V.length (wOf V) (fun j _ => wOf_nonneg V f.vsi.pos j)
+      (fun j => ∃ s', s' < s ∧ voteAt K me0 g0 as h 2 j cr (some b) s')
+      (fun j => ∃ s', (Hs K me0 g0 as h).precommit j cr (some b) s') (fun j ⟨s', _, hv⟩ => ⟨s', hv⟩)
+    unfold CommitQuorum
+    omega
+  obtain ⟨cr, q⟩ := quorum s k hk b hb hc
+  obtain ⟨cr', q'⟩ := quorum s' k' hk' b' hb' hc'
+  have pos := (gi st 0 k hk).1.vsi.pos
+  exact agreementZ V.length (wOf V) _ (Hs K me0 g0 as h) (fun j _ => wOf_nonneg V pos j) hF
+    (honest_rules st) cr cr' b b' q q'
+
+end
 end AnnVerif.Net
